@@ -3,7 +3,7 @@ import numpy
 from scipy.spatial import Delaunay
 from sklearn.cluster import KMeans
 from sklearn.metrics.pairwise import euclidean_distances
-from sklearn.utils import check_random_state
+from sklearn.utils import check_array, check_random_state
 from ._kmeans_constraint_ import constraint_kmeans, constraint_predictions
 
 
@@ -115,6 +115,8 @@ class ConstraintKMeans(KMeans):
         :param y: Ignored
         :param sample_weight: sample weight
         """
+        # The balancing code computes centres in the dtype of X.
+        X = check_array(X, accept_sparse="csr", dtype=[numpy.float64, numpy.float32])
         max_iter = self.max_iter
         self.max_iter //= 2
         try:
